@@ -31,8 +31,22 @@ Definition ob_eqb (x y : option bool) : bool :=
 Definition both_num (c : case) : bool :=
   match c_a c, c_b c with VNum _ _, VNum _ _ => true | _, _ => false end.
 
+(* maps: the model flips the direction of the inner comparisons (see Model/ValueEq.v); that is the code's
+   behaviour when the numbers involved have aligned units (same unit set, or one unitless) *)
+Fixpoint has_map (v : value) : bool :=
+  match v with
+  | VMap _ => true
+  | VList xs _ _ => existsb has_map xs
+  | _ => false
+  end.
+Definition aligned (x y : numeric) : bool :=
+  us_eqb (nunit x) (nunit y) || num_is_no_unit x || num_is_no_unit y.
+Definition all_aligned (a b : value) : bool :=
+  forallb (fun x => forallb (aligned x) (numbers_of b)) (numbers_of a).
+
 Definition corr (c : case) : Z :=
   if has_other (c_a c) || has_other (c_b c) then 2 else
+  if (has_map (c_a c) || has_map (c_b c)) && negb (all_aligned (c_a c) (c_b c) && all_aligned (c_a c) (c_a c)) then 2 else
   let a := c_a c in let b := c_b c in
   let ords := if both_num c
               then match vlt a b, vgt a b with
@@ -74,10 +88,6 @@ Definition clause_tri (c : case) : bool :=
   else true.
 
 (* ---- known classes: functions of the INPUT values only ---- *)
-(* K1 (F17): some number of a and some number of b are equal in one direction only *)
-Definition known_K1 (c : case) : bool :=
-  existsb (fun x => existsb (fun y => negb (Bool.eqb (num_eqb x y) (num_eqb y x))) (numbers_of (c_b c)))
-          (numbers_of (c_a c)).
 Definition mags_eq (x y : numeric) : bool := number_eq (nval x) (nval y) || number_eq (nval y) (nval x) || feq (nval x) (nval y).
 (* K2 (F18): equal magnitudes, different `calculated` flags *)
 Definition known_K2 (c : case) : bool :=
@@ -92,10 +102,17 @@ Definition known_K3 (c : case) : bool :=
   | _, _ => false
   end.
 
+(* K4 (F31): a number of a and a number of b carry two different units and are equal in one direction only
+   (each direction converts the OTHER operand into its own unit, with its own rounding) *)
+Definition known_K4 (c : case) : bool :=
+  existsb (fun x => existsb (fun y => negb (aligned x y) && negb (Bool.eqb (num_eqb x y) (num_eqb y x)))
+                            (numbers_of (c_b c)))
+          (numbers_of (c_a c)).
+
 (* [corr; sym; class; neg; refl; tri; class] *)
 Definition run (c : case) : list Z :=
   [ corr c;
-    b2z (clause_sym c); (if known_K1 c then 1 else 0);
+    b2z (clause_sym c); (if known_K4 c then 4 else 0);
     b2z (clause_neg c);
     b2z (clause_refl c);
-    b2z (clause_tri c); (if known_K1 c then 1 else if known_K3 c then 3 else if known_K2 c then 2 else 0) ].
+    b2z (clause_tri c); (if known_K4 c then 4 else if known_K3 c then 3 else if known_K2 c then 2 else 0) ].
